@@ -110,9 +110,39 @@ type anon struct {
 // genL2 builds a case around a generated query.
 func genL2(r *rng.R, g *qgen.G, seeds []string) (*l2Case, bool) {
 	var q string
-	if r.Chance(3, 4) {
+	focusBulk := false
+	switch {
+	case r.Chance(1, 8):
+		// insert-focused stream: types with omitempty members, mostly bulk arguments
+		t := r.Pick([]string{"Omit", "Omit", "Loc", "EmbPtr", "Deep", "Person", "MS"})
+		focusBulk = true
+		switch r.Intn(4) {
+		case 0:
+			e, _ := zoo.ByName(t)
+			cols := append([]string{}, e.Tags...)
+			for i := range cols {
+				j := r.Intn(i + 1)
+				cols[i], cols[j] = cols[j], cols[i]
+			}
+			if len(cols) > 0 {
+				cols = cols[:1+r.Intn(len(cols))]
+			}
+			if e.Kind == "map" {
+				q = "INSERT INTO t (" + strings.Join(cols, ", ") + ") VALUES ($" + t + ".*)"
+			} else {
+				q = "INSERT INTO t (" + strings.Join(cols, ", ") + ") VALUES ($" + t + ".*)"
+			}
+		case 1:
+			q = "INSERT INTO t (*) VALUES ($" + t + ".*, $M.k)"
+		default:
+			q = "INSERT INTO t (*) VALUES ($" + t + ".*)"
+		}
+		if t == "MS" && !strings.Contains(q, "(*)") == false {
+			q = "INSERT INTO t (k, id) VALUES ($MS.*)"
+		}
+	case r.Chance(3, 4):
 		q = g.Skeleton()
-	} else {
+	default:
 		q = g.Query(seeds)
 	}
 	uses, order, _, ok := usesOf(q)
@@ -200,8 +230,11 @@ func genL2(r *rng.R, g *qgen.G, seeds []string) (*l2Case, bool) {
 		var arg any
 		canBulk := u.inInsert && !u.standalone && e.Kind != "slice"
 		switch {
-		case canBulk && r.Chance(1, 3):
+		case canBulk && (r.Chance(1, 3) || (focusBulk && r.Chance(2, 3))):
 			ln := bulkN
+			if focusBulk {
+				ln = 2 + r.Intn(3)
+			}
 			if r.Chance(1, 8) {
 				ln = r.Intn(4)
 			}
